@@ -1,5 +1,6 @@
 """C19 Lookup tables and compile-time fixed-point maths match their references (structural clauses)."""
 import ast
+import math
 
 from ..astutil import calls_in, call_name, dotted, norm, try_fold, walk_no_nested
 from ..cfg import cfg_of
@@ -13,6 +14,162 @@ WIDEN = ("int", "np.int64", "np.int32", "numpy.int64", "numpy.int32", "float", "
 # gemmlowp fixedpoint.h, exp_on_negative_values: GEMMLOWP_EXP_BARREL_SHIFTER(exponent, multiplier) (frozen external reference)
 GEMMLOWP_BARREL = [(-2, 1672461947), (-1, 1302514674), (0, 790015084), (1, 290630308), (2, 39332535), (3, 720401), (4, 242)]
 GEMMLOWP_EXP_CONSTANTS = {"constant_term": 1895147668, "constant_1_over_3": 715827883}
+
+
+def _cdiv(a, b):
+    q = abs(a) // abs(b)
+    return q if (a >= 0) == (b >= 0) else -q
+
+
+def _ref_high_mul(bits, rounding):
+    lo, hi = -(1 << (bits - 1)), (1 << (bits - 1)) - 1
+
+    def ref(a, b):
+        if a == b == lo:
+            return hi
+        ab = a * b
+        nudge = 0 if not rounding else ((1 << (bits - 2)) if ab >= 0 else 1 - (1 << (bits - 2)))
+        return _cdiv(ab + nudge, 1 << (bits - 1))
+    return ref
+
+
+def _ref_rdbp(x, e):
+    mask = (1 << e) - 1
+    return (x >> e) + (1 if (x & mask) > (mask >> 1) + (1 if x < 0 else 0) else 0)
+
+
+def _fp_probes(repo, rep, fp):
+    from ..absint import AObj, Interp, Unknown
+
+    def wrap(bits):
+        def ext(interp, args, kwargs, node):
+            if len(args) == 1 and isinstance(args[0], int) and not isinstance(args[0], bool):
+                v = args[0] & ((1 << bits) - 1)
+                return v - (1 << bits) if v >> (bits - 1) else v
+            return Unknown(f"int{bits}(?)")
+        return ext
+
+    def iinfo(interp, args, kwargs, node):
+        a = args[0] if args else None
+        if isinstance(a, tuple) and a and a[0] == "extfunc" and a[1].rsplit(".", 1)[-1] in ("int8", "int16", "int32", "int64"):
+            b = int(a[1].rsplit("int", 1)[-1])
+            return AObj("iinfo", {"min": -(1 << (b - 1)), "max": (1 << (b - 1)) - 1, "bits": b})
+        return Unknown("iinfo(?)")
+
+    ex = {}
+    for pre in ("np.", "numpy."):
+        for b in (8, 16, 32, 64):
+            ex[f"{pre}int{b}"] = wrap(b)
+        ex[pre + "iinfo"] = iinfo
+    it = Interp(repo, fp, externs=ex)
+
+    def grid(bits):
+        top = 1 << (bits - 1)
+        half = 1 << (bits - 2)
+        vs = {0, 1, 2, 3, 5, 7, 12345, half - 1, half, half + 1, top - 3, top - 1, (1 << (bits // 2)), (1 << (bits // 2)) + 1, 3 << (bits - 4), (top // 3) | 1}
+        return sorted({v for v in vs if v < top} | {-v for v in vs if v <= top} | {-top})
+
+    jobs = [("saturating_rounding_mul32", _ref_high_mul(32, True), [(a, b) for a in grid(32) for b in grid(32)], "gemmlowp SaturatingRoundingDoublingHighMul<int32>"),
+            ("saturating_rounding_mul16", _ref_high_mul(16, True), [(a, b) for a in grid(16) for b in grid(16)], "gemmlowp SaturatingRoundingDoublingHighMul<int16>"),
+            ("saturating_mul16", _ref_high_mul(16, False), [(a, b) for a in grid(16) for b in grid(16)], "TFLM SaturatingDoublingHighMul (truncating)")]
+    rd = []
+    for e in (0, 1, 2, 3, 7, 15, 30):
+        for k in (-3, -2, -1, 0, 1, 2, 1000):
+            base = k << e
+            for d in {0, 1, -1, (1 << e) >> 1, ((1 << e) >> 1) + 1, ((1 << e) >> 1) - 1}:
+                x = base + d
+                if -(1 << 31) <= x < (1 << 31):
+                    rd.append((x, e))
+    jobs.append(("rounding_divide_by_pot", _ref_rdbp, sorted(set(rd)), "gemmlowp RoundingDivideByPOT"))
+    for fn, ref, probes, what in jobs:
+        wrong = []
+        for args in probes:
+            ps = list(it.run(fn, lambda: (list(args), {})))
+            if len(ps) != 1 or ps[0].kind != "return" or not isinstance(ps[0].value, int) or isinstance(ps[0].value, bool):
+                raise AnalysisError(f"{fn}{args} not evaluable: {[(p_.kind, p_.value, p_.decisions) for p_ in ps][:2]}")
+            if ps[0].value != ref(*args):
+                wrong.append((args, ps[0].value, ref(*args)))
+        rep.check(not wrong, "C19-c", f"{FP}:{fn}", f"equals {what} on {len(probes)} probes (both product signs, zero / non-zero / half remainders, saturation corner)",
+                  "; ".join(f"{fn}{a} = {g}, reference {w}" for a, g, w in wrong[:3]) + (f" (+{len(wrong) - 3} more)" if len(wrong) > 3 else ""))
+
+
+LUT_CREATORS = ("convert_to_lut8", "create_lut_8bit_op", "create_lut_int16_op")
+REAL_FN = {
+    "Sigmoid": ("logistic", lambda x: 1.0 / (1.0 + math.exp(-x)) if x > -700 else 0.0, ()),
+    "Tanh": ("tanh", math.tanh, ("math.tanh", "np.tanh", "numpy.tanh")),
+    "Exp": ("exp", math.exp, ("math.exp", "np.exp", "numpy.exp")),
+    "Sqrt": ("sqrt", math.sqrt, ("math.sqrt", "np.sqrt", "numpy.sqrt")),
+}
+LUT_PROBES = [0.0, 0.1, 0.5, 1.0, 2.0, 3.9, 4.0, 4.1, 6.0, 7.9, 8.0, 8.1, 10.0, 16.0, 20.0, 30.0]
+
+
+def _lut_functions(repo, rep):
+    from ..absint import Interp, Unknown
+
+    go = repo.mod("tflite_graph_optimiser")
+
+    def lift(fn):
+        def ext(interp, args, kwargs, node):
+            if len(args) == 1 and isinstance(args[0], (int, float)) and not isinstance(args[0], bool) and not kwargs:
+                try:
+                    return float(fn(args[0]))
+                except (OverflowError, ValueError):
+                    return Unknown("math-error")
+            return Unknown("math(?)")
+        return ext
+
+    ex = {}
+    for nm in ("exp", "tanh", "sqrt", "log", "erf", "fabs", "expm1", "sinh", "cosh"):
+        ex["math." + nm] = lift(getattr(math, nm))
+        if nm not in ("erf", "fabs"):
+            ex["np." + nm] = ex["numpy." + nm] = lift(getattr(math, nm))
+    pairs = []
+    for fn in go.functions.values():
+        for node in ast.walk(fn):
+            if not (isinstance(node, ast.If) and isinstance(node.test, ast.Compare) and norm(node.test.left) == "op.type" and len(node.test.ops) == 1
+                    and isinstance(node.test.ops[0], ast.Eq) and norm(node.test.comparators[0]).startswith("Op.")):
+                continue
+            opn = norm(node.test.comparators[0])[3:]
+            for st in node.body:
+                for c in calls_in(st):
+                    if call_name(c) in LUT_CREATORS and len(c.args) >= 2:
+                        pairs.append((fn, opn, c.args[1]))
+                if isinstance(st, ast.Assign) and norm(st.targets[0]) == "func":
+                    pairs.append((fn, opn, st.value))
+    n = 0
+    for fn, opn, f in pairs:
+        site = f"{GO}:{fn.name}"
+        if opn not in REAL_FN:
+            rep.info("C19-e", site, f"{opn} table generated from `{norm(f)}`", "not decided (no reference entered for this operator / closure over the operator)")
+            continue
+        title, ref, libnames = REAL_FN[opn]
+        n += 1
+        txt = norm(f)
+        if txt in libnames:
+            rep.ok("C19-e", site, f"{opn} table is generated from the library function {title}", txt)
+            continue
+        target = None
+        if isinstance(f, ast.Name):
+            for m in (go, repo.mod("numeric_util")):
+                if f.id in m.functions:
+                    target = (m, f.id)
+        if target is None:
+            rep.bad("C19-e", site, f"{opn} table is generated from the real function {title}", f"generated from `{txt}`, which is neither the library {title} nor a Vela helper the analysis can interpret")
+            continue
+        it = Interp(repo, target[0], externs=ex)
+        worst = None
+        for x in [sg * v for v in LUT_PROBES for sg in (1.0, -1.0)]:
+            if opn == "Sqrt" and x < 0:
+                continue
+            ps = list(it.run(target[1], lambda: ([x], {})))
+            if len(ps) != 1 or ps[0].kind != "return" or not isinstance(ps[0].value, (int, float)):
+                raise AnalysisError(f"{target[1]}({x}) not evaluable: {[(p_.kind, p_.value) for p_ in ps][:2]}")
+            err = abs(float(ps[0].value) - ref(x))
+            if worst is None or err > worst[0]:
+                worst = (err, x, ps[0].value)
+        rep.check(worst[0] <= 1e-9, "C19-e", site, f"{opn} table is generated from `{txt}`, which equals the real {title} on {2 * len(LUT_PROBES)} probe arguments (|error| <= 1e-9)",
+                  f"{txt}({worst[1]}) = {worst[2]!r} but {title}({worst[1]}) = {ref(worst[1])!r} (error {worst[0]:.3g}): entries for such inputs are not the correctly rounded value when the output step is fine enough")
+    rep.check(n >= 4, "C19-e", GO, "table function sites found for sigmoid, tanh, exp, sqrt", f"{n} sites")
 
 
 def run(repo, rep):
@@ -73,7 +230,10 @@ def run(repo, rep):
     ctl = lu.func("convert_to_lut")
     rep.check(any(isinstance(s, ast.Assert) and norm(s.test) == "ifm.dtype == ofm.dtype" for s in ctl.body), "C19-b", f"{LU}:convert_to_lut", "input and output types must agree for table ops", "")
     rep.floor("C19-a", 9)
-    rep.floor("C19-b", 12)
+    from .shared import round_half_away
+
+    round_half_away(repo, rep, "C19-b")
+    rep.floor("C19-b", 13)
 
     # ---------------------------------------------------------------- c
     fp = repo.mod("fp_math")
@@ -162,23 +322,29 @@ def run(repo, rep):
     d = {norm(s.targets[0]): norm(s.value) for s in sh.body if isinstance(s, ast.Assign)}
     rep.check(d.get("shift") == "fractional_bits + exponent if integer_bits > exponent else 0" and d.get("fractional_bits") == "26" and d.get("integer_bits") == "5", "C19-c",
               f"{FP}:exp_on_negative_values.exp_barrel_shifter", "stage k tests bit (26 + exponent) of the remainder (Q5.26)", str(d))
-    # rounding_divide_by_pot: gemmlowp RoundingDivideByPOT shape
-    rd = fp.func("rounding_divide_by_pot")
-    d = {norm(s.targets[0]): norm(s.value) for s in rd.body if isinstance(s, ast.Assign)}
-    rep.check(d.get("mask") == "(1 << exponent) - 1" and d.get("remainder") == "x & mask" and d.get("threshold") == "mask >> 1" and d.get("result") == "x >> exponent", "C19-c", f"{FP}:rounding_divide_by_pot",
-              "mask / remainder / threshold / arithmetic shift as in gemmlowp RoundingDivideByPOT", str(d))
-    neg = [n_ for n_ in rd.body if isinstance(n_, ast.If) and norm(n_.test) == "x < 0" and [norm(s) for s in n_.body] == ["threshold += 1"]]
-    up = [n_ for n_ in rd.body if isinstance(n_, ast.If) and norm(n_.test) == "remainder > threshold" and [norm(s) for s in n_.body] == ["result += 1"]]
-    rep.check(len(neg) == 1 and len(up) == 1, "C19-c", f"{FP}:rounding_divide_by_pot", "threshold + 1 for negative x; round up when remainder > threshold", "")
-    for fn, bits, wide in (("saturating_rounding_mul32", 31, "np.int64"), ("saturating_rounding_mul16", 15, "np.int32")):
-        f = fp.func(fn)
-        d = {norm(s.targets[0]): norm(s.value) for s in ast.walk(f) if isinstance(s, ast.Assign)}
-        rep.check(d.get("divider") == f"1 << {bits}" and d.get("ab") == f"{wide}(a) * {wide}(b)", "C19-c", f"{FP}:{fn}", f"doubling high multiply: {wide} product, divider 2^{bits}", str({k: d.get(k) for k in ('divider', 'ab')}))
-        nud = sorted(norm(s.value) for s in ast.walk(f) if isinstance(s, ast.Assign) and norm(s.targets[0]) == "nudge")
-        rep.check(nud == sorted([f"1 << {bits - 1}", f"1 - (1 << {bits - 1})"]), "C19-c", f"{FP}:{fn}", f"nudge = 2^{bits - 1} for non-negative products, 1 - 2^{bits - 1} otherwise", str(nud))
-        sat = [n_ for n_ in f.body if isinstance(n_, ast.If) and "a == b" in norm(n_.test) and ".min" in norm(n_.test)]
-        rep.check(len(sat) == 1 and ".max" in norm(sat[0].body[0]), "C19-c", f"{FP}:{fn}", "min * min saturates to max", "")
-    rep.floor("C19-c", 14)
+    # the integer helpers that mirror gemmlowp / TFLM C routines: interpreted (own interpreter, NumPy fixed-width
+    # constructors modelled as wrapping casts) on a probe grid covering both signs of the product, zero / non-zero /
+    # exactly-half remainders and the saturating corner, and compared with the C definitions (C division truncates)
+    _fp_probes(repo, rep, fp)
+    rep.floor("C19-c", 10)
+    rep.clause("C19-e", "the function a table is generated from is the real function its operator names (sigmoid, tanh, exp, sqrt): library function by name, "
+               "or a Vela helper interpreted on probe arguments against the real function (absolute error <= 1e-9, far below half an output step)")
+    _lut_functions(repo, rep)
+    rep.clause("C19-f", "tables share storage only when they are equal: the equivalence id of a LUT tensor is keyed by the complete value sequence (an injective key, no hash / digest / aggregate)")
+    lu = repo.mod("lut")
+    ct = lu.func("create_lut_tensor")
+    keys = [c for c in calls_in(ct) if call_name(c) == "create_equivalence_id"]
+    made = [c for c in calls_in(ct) if call_name(c) == "create_const_tensor"]
+    if len(keys) != 1 or len(made) != 1 or len(made[0].args) < 4:
+        raise AnalysisError("create_lut_tensor: equivalence id / tensor construction not recognised")
+    vals = norm(made[0].args[3])
+    k = keys[0].args[0] if keys[0].args else None
+    injective = k is not None and norm(k) in (f"tuple({vals})", f"bytes({vals})", f"{vals}.tobytes()", f"tuple({vals}), dtype", f"(tuple({vals}), dtype)", f"(dtype, tuple({vals}))")
+    rep.check(injective, "C19-f", f"{LU}:create_lut_tensor", f"equivalence id key is the whole value sequence `{vals}`",
+              f"key is `{norm(k) if k is not None else ''}`: two different tables can get the same id, hence one flash address, and one operator then runs with the other's table")
+    eq = repo.mod("tensor").func("create_equivalence_id")
+    rep.check(any("lru_cache" in norm(d) for d in eq.decorator_list) and norm(eq.body[-1]) == "return uuid.uuid4()", "C19-f", "ethosu/vela/tensor.py:create_equivalence_id",
+              "ids are fresh uuids memoised by key (equal key <=> equal id)", norm(eq.body[-1]))
     rep.clause("C19-d", "constant folding and table generation divide float32 scales only after widening them to double (reference precision) [rule shared with C09-b]")
     from . import c09
 
